@@ -27,10 +27,6 @@ fn sweep(bytes: &[u8], limit: usize, fail_from: usize) -> String {
                 }
             }
         }
-        // a second pass after a failure must still return
-        for k in 0..image.num_loaded_keyframes() {
-            let _ = image.render_frame(k);
-        }
         drop(renders);
         drop(image);
         res
